@@ -242,24 +242,23 @@ Lemma spec_word_testbit ws s b :
   N.testbit (word ws (N.to_nat ((b + s) / 32))) ((b + s) mod 32).
 Proof.
   intros Hws. unfold spec_word. cbv zeta.
-  rewrite <- N2Nat.inj_add.
   destruct (s mod 32 =? 0) eqn:Hbit.
   - assert (Hq : (b + s) / 32 = b / 32 + s / 32) by lia.
     assert (Hm : (b + s) mod 32 = b mod 32) by lia.
-    rewrite Hq, Hm. reflexivity.
+    rewrite Hq, Hm, N2Nat.inj_add. reflexivity.
   - rewrite N.lxor_spec, N.shiftr_spec'. unfold trunc32.
     rewrite N.mod_pow2_bits_low by lia.
     destruct (b mod 32 + s mod 32 <? 32) eqn:Hc.
     + rewrite N.shiftl_spec_low by lia. rewrite xorb_false_r.
       assert (Hq : (b + s) / 32 = b / 32 + s / 32) by lia.
       assert (Hm : (b + s) mod 32 = b mod 32 + s mod 32) by lia.
-      rewrite Hq, Hm. reflexivity.
+      rewrite Hq, Hm, N2Nat.inj_add. reflexivity.
     + rewrite (small_bits _ 32 (b mod 32 + s mod 32)) by (try apply word_lt; try assumption; lia).
       rewrite xorb_false_l.
       rewrite N.shiftl_spec_high' by lia.
       assert (Hq : (b + s) / 32 = b / 32 + s / 32 + 1) by lia.
       assert (Hm : (b + s) mod 32 = b mod 32 - (32 - s mod 32)) by lia.
-      rewrite Hq, Hm, N2Nat.inj_add. reflexivity.
+      rewrite Hq, Hm, !N2Nat.inj_add. reflexivity.
 Qed.
 
 Theorem bv_left_shift_spec : forall ws s,
@@ -436,3 +435,31 @@ Proof. vm_compute. reflexivity. Qed.
 
 Example ex_get_bit : bv_get_bit [0; 0; 4; 0] 66 = 1 /\ bv_get_bit [0; 0; 4; 0] 65 = 0.
 Proof. vm_compute. split; reflexivity. Qed.
+
+(* ------------------------------------------------------------------ *)
+(* bridges to the forms used in Rdb.v (v128_shift) and Rdbx.v (rdbx_add) *)
+
+Require Srtp.Rdb.
+
+Theorem rdb_v128_shift_justified ws s :
+  length ws = 4%nat -> Forall (fun w => w < 2 ^ 32) ws ->
+  Srtp.Rdb.v128_shift (pack ws) (Z.of_N s) = pack (v128_left_shift ws s).
+Proof.
+  intros Hlen Hws. unfold Srtp.Rdb.v128_shift. rewrite N2Z.id.
+  destruct (v128_left_shift_spec ws s Hlen Hws) as [_ [_ [_ Hp]]]. rewrite Hp.
+  destruct (127 <? s) eqn:H1; destruct (127 <? Z.of_N s)%Z eqn:H2; try reflexivity; lia.
+Qed.
+
+Print Assumptions rdb_v128_shift_justified.
+
+Theorem rdbx_shift_justified ws s :
+  Forall (fun w => w < 2 ^ 32) ws ->
+  (if 32 * N.of_nat (length ws) <=? s then 0 else N.shiftr (pack ws) s)
+  = pack (bv_left_shift ws s).
+Proof.
+  intros Hws. rewrite (bv_left_shift_spec ws s Hws).
+  destruct (32 * N.of_nat (length ws) <=? s) eqn:Hg; [|reflexivity].
+  symmetry. apply (bv_left_shift_overflow ws s Hws). lia.
+Qed.
+
+Print Assumptions rdbx_shift_justified.
